@@ -173,6 +173,9 @@ impl<'a> WireFormat<'a> for Name<'a> {
         let mut name_size = 0usize;
 
         loop {
+            #[cfg(simple_dns_verif)]
+            crate::dns::verif::step();
+
             if *position >= data.len() {
                 return Err(crate::SimpleDnsError::InsufficientData);
             }
@@ -414,6 +417,14 @@ impl<'a> Label<'a> {
         }
 
         true
+    }
+}
+
+#[cfg(simple_dns_verif)]
+impl<'a> Label<'a> {
+    /// Verification hook: the raw bytes of this label
+    pub fn verif_bytes(&self) -> &[u8] {
+        &self.data
     }
 }
 
